@@ -562,7 +562,7 @@ package ion
 //@ trusted assumed: on success the reader has consumed the symbol-table struct, stands after it with its invariant intact, and a table is returned (to be replaced by a proof over the Reader interface contract)
 //@ modifies vcAsBinaryReader(r).eof, vcAsBinaryReader(r).lst, vcAsBinaryReader(r).fieldName, vcAsBinaryReader(r).annotations, vcAsBinaryReader(r).valueType, vcAsBinaryReader(r).value, vcAsBinaryReader(r).ctx.arr, vcAsBinaryReader(r).bits.pos, vcAsBinaryReader(r).bits.state, vcAsBinaryReader(r).bits.code, vcAsBinaryReader(r).bits.null, vcAsBinaryReader(r).bits.len, vcAsBinaryReader(r).bits.stack.arr, vcStreamOf(vcAsBinaryReader(r).bits.in).cur
 //@ ensures err == nil ==> result != nil
-//@ ensures err == nil && vcIsBinaryReader(r) ==> brInv(vcAsBinaryReader(r)) && vcAsBinaryReader(r).err == nil && !vcAsBinaryReader(r).eof && vcAsBinaryReader(r).bits.state != bssOnValue
+//@ ensures err == nil && vcIsBinaryReader(r) ==> brInv(vcAsBinaryReader(r)) && vcAsBinaryReader(r).err == nil && !vcAsBinaryReader(r).eof && vcAsBinaryReader(r).bits.state != bssOnValue && vcAsBinaryReader(r).valueType == NoType && vcAsBinaryReader(r).value == nil
 
 //@ func (*binaryReader).readBVM
 //@ split returns
@@ -612,11 +612,12 @@ package ion
 
 //@ func (*binaryReader).next
 //@ split returns
-//@ requires brLocal(r) && r.err == nil
+//@ requires brLocal(r) && r.err == nil && r.valueType == NoType && r.value == nil
 //@ requires bsNested(&r.bits)
 //@ modifies r.eof, r.lst, r.fieldName, r.annotations, r.valueType, r.value, r.ctx.arr, r.bits.pos, r.bits.state, r.bits.code, r.bits.null, r.bits.len, r.bits.stack.arr, vcStreamOf(r.bits.in).cur
 //@ ensures[C03,C06,C08] err == nil ==> brLocal(r)
 //@ ensures[C03,C06,C08] err == nil ==> bsNested(&r.bits)
+//@ ensures[C03,C08,C10] err == nil && !result ==> r.valueType == NoType && r.value == nil && !r.eof
 //@ ensures[C03,C08] old(r.bits.state) == bssBeforeValue && (old(bsTop(&r.bits)) || old(r.bits.pos) != old(bsTopEnd(&r.bits))) && old(bsAvail(&r.bits)) > 0 && err == nil &&
 //@    specIonType(old(bsByte(&r.bits, 0))) != NoType ==> result && !r.eof && r.valueType == specIonType(old(bsByte(&r.bits, 0))) && ((r.value == nil) == specTagNull(old(bsByte(&r.bits, 0))))
 //@ ensures[C03,C10] old(r.bits.state) == bssBeforeValue && (old(bsTop(&r.bits)) || old(r.bits.pos) != old(bsTopEnd(&r.bits))) && old(bsAvail(&r.bits)) > 0 && err == nil &&
